@@ -3,6 +3,7 @@ mvdrv <mode>: one request per line on stdin (`id<TAB>payload`), one answer per l
 (`id<TAB>result`), same protocol as the Rust harness `mv_harness`.
 -/
 import MambaVerif.Model.Wire
+import MambaVerif.Model.PyExpr
 
 open MV
 
@@ -12,6 +13,39 @@ def handle (mode : String) (payload : String) : String :=
     match unhexString payload with
     | some s => dumpLexRes (tokenize s.toList)
     | none => "BADINPUT"
+  | "core" =>
+    match Sexp.parse payload with
+    | some sx =>
+      match ceOfSexp sx with
+      | some e => "ok " ++ hexOfBytes e.display.toUTF8
+      | none => "bad core"
+    | none => "bad sexp"
+  | "pyparse" =>
+    -- Core S-expression -> tokens of the print model -> Python grammar model -> tree dump, and ⌜e⌝
+    match Sexp.parse payload with
+    | some sx =>
+      match ceOfSexp sx with
+      | some e =>
+        let ts := pr e
+        let big := parse (64 * ts.length + 256) 1 ts
+        let parsed := match pyParse ts, big with
+          | some a, some (b, []) => if a.dump == b.dump then a.dump else "FUEL-DEPENDENT"
+          | none, none => "noparse"
+          | none, some (_, _ :: _) => "noparse"
+          | _, _ => "FUEL-DEPENDENT"
+        parsed ++ "\t" ++ (embed e).dump
+      | none => "bad core"
+    | none => "bad sexp"
+  | "pyflat" =>
+    match Sexp.parse payload with
+    | some sx =>
+      match ceOfSexp sx with
+      | some e =>
+        let ts := prFlat e
+        let parsed := match pyParse ts with | some a => a.dump | none => "noparse"
+        hexOfBytes (renderToks ts).toUTF8 ++ "\t" ++ parsed
+      | none => "bad core"
+    | none => "bad sexp"
   | _ => "BADMODE"
 
 partial def loop (h : IO.FS.Stream) (out : IO.FS.Stream) (mode : String) : IO Unit := do
